@@ -75,6 +75,7 @@ type Prog struct {
 	chaG    *callgraph.Graph
 	LoadS   float64
 	mr      *modref
+	ord     *orderAnalysis
 }
 
 func sha(path string) string {
